@@ -368,7 +368,8 @@ def main():
     K = [x for r in results for x in r.get("K", [])]
     if cfg.get("judge") == "clean":
         # C20: value correctness is judged by the other properties; here only crashes and non-canonical outputs count
-        S = ["S 0 class=- noncanonical " + k[2:] for k in K]
+        # (S lines of the UBSan probes — class ids "ub.…" — are cleanliness verdicts and stay)
+        S = [x for x in S if " class=ub." in x] + ["S 0 class=- noncanonical " + k[2:] for k in K]
     S_known, S_new = [], []
     for s in S:
         (S_known if cls_of(s) in known_classes else S_new).append(s)
@@ -382,7 +383,8 @@ def main():
     n_known = sum(k for c, k in cls_totals.items() if c in known_classes)
     n_new = sum(k for c, k in cls_totals.items() if c not in known_classes)
     if cfg.get("judge") == "clean":
-        n_known, n_new = 0, len(K)
+        n_known = sum(k for c, k in cls_totals.items() if c in known_classes and c.startswith("ub."))
+        n_new = len(K) + sum(k for c, k in cls_totals.items() if c not in known_classes and c.startswith("ub."))
     n_diff = sum(r["N"].get("diff", 0) for r in results)
     for c, k in known_classes.items():
         if c in seen_known:
